@@ -339,16 +339,19 @@ theorem Lims.le_trans {a b c : Lims} (h : a.le b) (h' : b.le c) : a.le c :=
   ⟨h.1.trans h'.1, Nat.le_trans h.2.1 h'.2.1, Nat.le_trans h.2.2 h'.2.2⟩
 
 /-- condition on the first operand `v` of an instruction that carries an index:
-    local slot, free-variable slot, builtin number, constant index of a global's name, constant index -/
+    free-variable slot, builtin number, constant index of a global's name, constant index.
+    (Local slots are not covered: `DefineLocal(":array")` and a `catch` identifier may return an
+    existing symbol of any scope, whose index the compiler emits as a local slot; ruling that out
+    needs identifier hygiene of the AST — see the design note.) -/
 def Opnd1OK (L : Lims) (op v : Nat) : Prop :=
-  (isLocalOp op = true → v < L.nl) ∧ (isFreeOp op = true → v < L.nf) ∧ (op = OpGetBuiltin → v < NB) ∧
+  (isFreeOp op = true → v < L.nf) ∧ (op = OpGetBuiltin → v < NB) ∧
   (isGlobalOp op = true → ∃ b, L.cs[v]? = some (.val (.str b))) ∧
   (isConstOp op = true → v < L.cs.size) ∧
   (op = OpConstant → ∀ f, L.cs[v]? = some (.fn f) → FreeBound 0 f.insts)
 
 theorem Opnd1OK.mono {L L' : Lims} {op v : Nat} (h : Opnd1OK L op v) (hl : L.le L') : Opnd1OK L' op v := by
-  obtain ⟨h1, h2, h3, h4, h5, h6⟩ := h
-  refine ⟨fun c => Nat.lt_of_lt_of_le (h1 c) hl.2.1, fun c => Nat.lt_of_lt_of_le (h2 c) hl.2.2, h3, ?_, ?_, ?_⟩
+  obtain ⟨h2, h3, h4, h5, h6⟩ := h
+  refine ⟨fun c => Nat.lt_of_lt_of_le (h2 c) hl.2.2, h3, ?_, ?_, ?_⟩
   · intro c; obtain ⟨b, hb⟩ := h4 c; exact ⟨b, hl.1.get hb⟩
   · intro c; exact Nat.lt_of_lt_of_le (h5 c) hl.1.1
   · intro c f hf
@@ -358,14 +361,13 @@ theorem Opnd1OK.mono {L L' : Lims} {op v : Nat} (h : Opnd1OK L op v) (hl : L.le 
 
 /-- an opcode none of whose operands is an index -/
 def PlainIdx (op : Nat) : Prop :=
-  isLocalOp op = false ∧ isFreeOp op = false ∧ op ≠ OpGetBuiltin ∧ isGlobalOp op = false ∧ isConstOp op = false
+  isFreeOp op = false ∧ op ≠ OpGetBuiltin ∧ isGlobalOp op = false ∧ isConstOp op = false
 
 instance (op : Nat) : Decidable (PlainIdx op) := by unfold PlainIdx; infer_instance
 
 theorem PlainIdx.opnd {op : Nat} (h : PlainIdx op) (L : Lims) (v : Nat) : Opnd1OK L op v := by
-  obtain ⟨h1, h2, h3, h4, h5⟩ := h
-  refine ⟨fun c => ?_, fun c => ?_, fun c => absurd c h3, fun c => ?_, fun c => ?_, fun c => ?_⟩
-  · rw [h1] at c; cases c
+  obtain ⟨h2, h3, h4, h5⟩ := h
+  refine ⟨fun c => ?_, fun c => absurd c h3, fun c => ?_, fun c => ?_, fun c => ?_⟩
   · rw [h2] at c; cases c
   · rw [h4] at c; cases c
   · rw [h5] at c; cases c
